@@ -442,7 +442,7 @@ pub fn pred(k: &[u8]) -> Vec<u8> {
 }
 
 pub fn gen_merge_kind(rng: &mut Rng) -> MergeKind {
-    [MergeKind::Concat, MergeKind::First, MergeKind::Last][rng.weighted(&[60, 20, 20])]
+    [MergeKind::Concat, MergeKind::First, MergeKind::Last, MergeKind::Join][rng.weighted(&[52, 18, 18, 12])]
 }
 
 /// A self-delimiting value record `[len:u16][id:u32][padding]`.
